@@ -324,9 +324,20 @@ class TrajectoryCalc:
             _verif_sink("zbegin", self, {"shot": shot_info, "distance_feet": distance_feet, "zero_distance": zero_distance,
                                          "height_at_zero": height_at_zero, "elevation": self.barrel_elevation})
         # x = horizontal distance down range, y = drop, z = windage
+        restarted = False
         while zero_finding_error > _cZeroFindingAccuracy and iterations_count < _cMaxIterations:
             # Check height of trajectory at the zero distance (using current self.barrel_elevation)
-            t = self._integrate(shot_info, zero_distance, zero_distance, TrajFlag.NONE)[0]
+            try:
+                t = self._integrate(shot_info, zero_distance, zero_distance, TrajFlag.NONE)[0]
+            except RangeError:
+                # The search starts from the shot's current elevation (the weapon's stored zero plus any hold-over). If a trial
+                # shot does not even reach the zero distance, that elevation is no use as a starting point: start over, once,
+                # along the sight line. (A target that cannot be reached along the sight line either still raises.)
+                if restarted or self.barrel_elevation == self.look_angle:
+                    raise
+                restarted = True
+                self.barrel_elevation = self.look_angle
+                continue
             height = t.height >> Distance.Foot
             # The trajectory is sampled where the loop stopped, up to a step beyond zero_distance: compare it with the
             # height of the sight line at that very distance (for a level sight line this is height_at_zero = 0)
